@@ -91,9 +91,19 @@ class Writer:
         self.spaced = rng.random() < 0.3                      # pretty printed: <x href="#id">(white space)</x>
         # an independent element may re-bind, for itself, a prefix the envelope binds (and that it does not use)
         self.shadow = rng.random() < 0.3
+        # an independent element may state the target namespace as its default namespace and name the types of the
+        # structs inside it without a prefix (an unprefixed QName value takes the default namespace in scope)
+        self.dflt = (not self.local) and rng.random() < 0.25
+        self.in_dflt = 0
+        # ids are case-sensitive: r1 and R1 are two ids
+        self.mixed_case_ids = rng.random() < 0.3
 
     def new_id(self):
         self.n += 1
+        if self.mixed_case_ids:
+            # r1, R2, r3 ... and, for every second one, the other case of an id already used (r1 / R1)
+            k = (self.n + 1) // 2
+            return ("Ref%d" if self.n % 2 else "ref%d") % k
         return {"num": "id%d" % self.n, "guid": "g-%04x-ref" % (self.n * 7919), "plain": "r%d" % self.n}[self.id_style]
 
     def type_attrs(self, v):
@@ -104,6 +114,8 @@ class Writer:
             uris = {self.xsi: XSI, "x": TNS, "xsd": XSD, "soapenc": ENC}
             return "".join(' xmlns:%s="%s"' % (p, uris[p]) for p in dict.fromkeys(prefixes))
         if v[0] == "struct":
+            if self.in_dflt:
+                return decl(self.xsi) + ' %s:type="%s"' % (self.xsi, v[1])
             return decl(self.xsi, "x") + ' %s:type="x:%s"' % (self.xsi, v[1])
         if v[0] == "array":
             return decl(self.xsi, "soapenc", v[1].split(":")[0]) + \
@@ -133,7 +145,15 @@ class Writer:
                 tag = {"multiRef": "multiRef", "accessor": name, "other": "val%d" % self.n}[self.mrname]
                 if self.shadow and v[0] in ("str", "int"):
                     root = ' xmlns:x="urn:shadowed:%d"%s' % (self.n, root)
-                self.multirefs.append('<%s id="%s"%s%s>%s</%s>' % (tag, rid, root, self.type_attrs(v), self.content(v), tag))
+                use_dflt = self.dflt and v[0] == "struct" and not self.in_dflt
+                own_type = self.type_attrs(v)
+                if use_dflt:
+                    root = ' xmlns="%s"%s' % (TNS, root)
+                    self.in_dflt += 1
+                body = self.content(v)
+                if use_dflt:
+                    self.in_dflt -= 1
+                self.multirefs.append('<%s id="%s"%s%s>%s</%s>' % (tag, rid, root, own_type, body, tag))
             self.outlined += 1
             if self.spaced:
                 return '<%s href="#%s">\n    </%s>' % (name, rid, name)
